@@ -71,3 +71,32 @@ Proof.
   unfold check_signature. destruct (candidate_certs mp m issuer only_md embedded) as [certs|e]; [|reflexivity].
   unfold check_signature_runs. rewrite cert_loop_tool_for. destruct (memN signer certs); reflexivity.
 Qed.
+
+(* ---- the code before proposed_fix/C03-1 ---- *)
+Lemma md_certs_before_fix_char m eid use :
+  md_certs_before_fix m eid use = None \/ md_certs_before_fix m eid use = md_certs m eid use.
+Proof.
+  unfold md_certs_before_fix, md_certs. destruct eid as [i|]; [|now left]. destruct (find_entity m i) as [e|]; [|now left].
+  destruct (lacks_x509 use e); [now left|now right].
+Qed.
+
+Lemma check_signature_before_fix_spec mp m issuer only_md embedded signer :
+  check_signature_before_fix mp m issuer only_md embedded signer =
+  match candidate_certs_before_fix mp m issuer only_md embedded with
+  | Err e => Err e
+  | Ok certs => if memN signer certs then Ok tt else Err (s2l "SignatureError")
+  end.
+Proof.
+  unfold check_signature_before_fix. destruct (candidate_certs_before_fix mp m issuer only_md embedded) as [certs|e]; [|reflexivity].
+  unfold check_signature_runs. rewrite cert_loop_tool_for. destruct (memN signer certs); reflexivity.
+Qed.
+
+(* default setting: whatever the code before the repair accepted, the repaired code accepts *)
+Lemma check_signature_before_fix_default_sound mp m issuer embedded signer :
+  check_signature_before_fix mp m issuer true embedded signer = Ok tt ->
+  check_signature mp m issuer true embedded signer = Ok tt.
+Proof.
+  rewrite check_signature_before_fix_spec, check_signature_spec. unfold candidate_certs_before_fix, candidate_certs.
+  rewrite !andb_false_r. destruct mp; [|discriminate].
+  destruct (md_certs_before_fix_char m issuer SIGNING) as [-> | ->]; [discriminate|]. auto.
+Qed.
